@@ -134,6 +134,12 @@ type endpoint struct {
 	// endpoint is in this state. hardError is protected by mu.
 	hardError *tcpip.Error
 
+	// rstReceived is set by the protocol goroutine when the connection is
+	// being torn down because the peer sent an acceptable RST; such a
+	// connection must not answer with a reset of its own. It is only
+	// accessed by the protocol goroutine.
+	rstReceived bool
+
 	// workerRunning specifies if a worker goroutine is running.
 	workerRunning bool
 
